@@ -1,7 +1,7 @@
 /-
   Line-protocol driver: one record per input line, one canonical answer line per record.
 -/
-import PasfmtModel.Model.Pipeline
+import PasfmtModel.Model.Contracts
 
 namespace Pasfmt
 
@@ -102,10 +102,13 @@ def handleFmt (cfgS inpS kindsS linesS postS changedS alnumS : String) : String 
           alnum := fun b => alnum.contains b }
       let (marks, lines', ft1) := preWrap O raw
       let out := formatTokens cfg O raw
+      let ft2 := O.wrap cfg lines' ft1
+      let wc := wrapFrameB ft1 ft2
+      let ndOk := contentsNdB raw
       let marksS := showList ((marks.zipIdx.filter (·.1)).map fun (_, i) => toString i)
       let pre := showList (ft1.map fun t => showFmt t.fmt)
       let prec := showChanged (raw.map (·.content)) (ft1.map (·.tok.content))
-      s!"marks={marksS}\tlv={showLines lines'}\tpre={pre}\tprec={prec}\tkr=1\twc=1\tout={toHex out}"
+      s!"marks={marksS}\tlv={showLines lines'}\tpre={pre}\tprec={prec}\tkr=1\twc={bool01 wc}\tnd={bool01 ndOk}\tout={toHex out}"
   | _, _, _, _, _, _, _ => "bad-record"
 
 def handleLine (line : String) : String :=
